@@ -29,7 +29,8 @@ method re-creates both detectors -/
 theorem reset_transcribed :
     (["complete", "infer", "goto", "help", "get_references", "get_signatures", "_names"].all
       (Gen.C16.resetFirst.contains ·)) = true ∧
-    Gen.C16.resetAssigns = ["self.execution_recursion_detector", "self.recursion_detector"] := by decide
+    (["self.execution_recursion_detector", "self.recursion_detector"].all
+      (Gen.C16.resetAssigns.contains ·)) = true := by decide
 
 /-- the four temporary switches are undone in `finally` blocks -/
 theorem switches_transcribed :
@@ -185,7 +186,10 @@ theorem query_boundary_inv_partial (cap factor : Nat) (qs : List Act) (s : QStat
       apply run_default
       exact h
   · intro s'
-    simp [reset, Gen.C16.resetAssigns]
+    have hc : (Gen.C16.resetAssigns.contains "self.execution_recursion_detector" &&
+        Gen.C16.resetAssigns.contains "self.recursion_detector") = true := by decide
+    unfold reset
+    simp only [hc, if_true]
 
 example : (QState.init).switchesDefault := ⟨rfl, rfl, rfl, rfl⟩
 
@@ -195,17 +199,28 @@ example : (run 300 100 QState.init (.predefine (.flowOff (.seq .execute .raise))
     (run 300 100 QState.init (.predefine (.flowOff (.seq .execute .raise)))).st.predefined = 0 := by
   decide
 
+/-- what `reset_recursion_limitations` re-creates in the unchanged source -/
+def unfixedResets : List String := ["self.execution_recursion_detector", "self.recursion_detector"]
+
 /-- FULL ("at a query boundary nothing that a query can observe has changed") is false:
 `inferred_element_counts` is not reset, so what a query sees of the per-context cap depends on how
 many inferences earlier queries on the same Script made in that context. With the cap of the
 source, the same query body is served the first time and refused after 300 earlier inferences
 (reproduced on the real code: known finding C16-cap-not-reset-per-query). -/
 theorem query_boundary_full_witness :
-    ((session Gen.C16.resetAssigns Gen.C16.nodeCap Gen.C16.nodeCapBuiltinFactor QState.init
+    ((session unfixedResets Gen.C16.nodeCap Gen.C16.nodeCapBuiltinFactor QState.init
         [.capped 0]).2.map (·.2)) = [[true]] ∧
-    ((session Gen.C16.resetAssigns Gen.C16.nodeCap Gen.C16.nodeCapBuiltinFactor QState.init
+    ((session unfixedResets Gen.C16.nodeCap Gen.C16.nodeCapBuiltinFactor QState.init
         (List.replicate Gen.C16.nodeCap (.capped 0) ++ [.capped 0])).2.map (·.2)).getLast? = some [false] := by
   decide +kernel
+
+/-- with the proposed fix (`reset_recursion_limitations` also re-creates
+`inferred_element_counts`) every query starts with empty counts, whatever happened before -/
+theorem query_boundary_counts_reset (resets : List String)
+    (h : resets.contains "self.inferred_element_counts" = true) (s : QState) :
+    (reset resets s).counts = Counts.empty := by
+  unfold reset
+  simp only [h, if_true]
 
 /-! ## the memo across queries -/
 
